@@ -149,5 +149,55 @@ def rule_n3(repo):
     return res
 
 
+def rule_n4(repo):
+    """When the instantiation of `?F x` is computed from a target `f x`, dropping the last argument
+    (eta-contraction, `inst_t = inst_t.fun`) is only correct if x does not occur anywhere in f.  The test
+    must therefore look through the whole function part (get_vars / occurs_var / has_vars / find_term),
+    not at its top-level arguments."""
+    res = RuleResult('C09.N4', 'an argument is dropped from an instantiation (eta-contraction) only after a freeness test over the whole function part', floor=2)
+    f = repo.func(MATCHER, 'first_order_match')
+    WHOLE_TERM = {'get_vars', 'occurs_var', 'has_vars', 'has_var', 'find_term', 'get_svars'}
+    for name, g in f.nested.items():
+        cfg = cfg_of(g.node)
+        for n in cfg.stmt_nodes(ast.Assign):
+            t, v = n.ast.targets[0], n.ast.value
+            if not (isinstance(t, ast.Name) and isinstance(v, ast.Attribute) and v.attr == 'fun' and is_name(v.value, t.id)):
+                continue
+            var = t.id
+
+            def free_test(e, pol, var=var):
+                # `x not in <var>.fun.get_vars()` true / `not find_term(<var>.fun, x)` true / `<var>.fun.occurs_var(x)` false
+                cp = compare_parts(e)
+                if cp and cp[0] in (ast.NotIn, ast.In) and isinstance(cp[2], ast.Call) and call_attr(cp[2]) in WHOLE_TERM and \
+                        path_of(cp[2].func.value) == var + '.fun':
+                    return pol if cp[0] is ast.NotIn else not pol
+                if isinstance(e, ast.Call) and (call_attr(e) in WHOLE_TERM):
+                    args = [path_of(a) for a in e.args] + ([path_of(e.func.value)] if isinstance(e.func, ast.Attribute) else [])
+                    if var + '.fun' in args:
+                        return not pol
+                return False
+            edges = cfg.establishing_edges(free_test)
+            ok = bool(edges) and cfg.path_avoiding(n, skip_edges=edges) is None
+            label = _guard_text(cfg, n)
+            k = sum(1 for i in res.instances if label in i.key)
+            res.add('%s :: first_order_match.%s :: eta-contraction#%d@(%s)' % (MATCHER, name, k + 1, label), ok,
+                    'dropped only when the variable does not occur in the function part' if ok else
+                    '`%s` is reachable without a whole-term freeness test on %s.fun: a bound variable nested inside an earlier '
+                    'argument leaks into the instantiation (%%x. ?P x against %%x. R (h x) x gives ?P := R (h x))' % (src(n.ast), var),
+                    '%s:%d' % (MATCHER, n.lineno))
+    return res
+
+
+def _guard_text(cfg, node):
+    """text of the nearest test the node depends on, as a stable label for the instance"""
+    best = None
+    for t in cfg.test_nodes():
+        for label in ('true', 'false'):
+            if cfg.path_avoiding(node, skip_edges={(t.id, label)}) is None and cfg.path_avoiding(node, skip_nodes=[t]) is None:
+                if best is None or t.lineno > best.lineno:
+                    best = t
+    return src(best.ast, 40) if best is not None else 'unconditional'
+
+
 def rules(repo):
-    return [rule_n1(repo), rule_n2(repo), rule_n3(repo)]
+    return [rule_n1(repo), rule_n2(repo), rule_n3(repo), rule_n4(repo)]
